@@ -299,6 +299,29 @@ static void fa_final_sweep(void) {
 #endif
 }
 
+/* forget everything (in-process drivers call this between cases): the quarantined blocks of
+ * the base variant are handed back to the real allocator, the table and the trace are cleared */
+static void fa_reset(void) {
+  for (unsigned i = 0; i < FA_TAB; i++) {
+    fa_blk_t *b = &fa_tab[i];
+    if (!b->p) continue;
+#ifndef FA_PASSTHROUGH
+    __real_coap_free_type((coap_memory_tag_t)b->type, (uint8_t *)b->p - FA_GZ);
+#else
+    if (b->live) __real_coap_free_type((coap_memory_tag_t)b->type, b->p);
+#endif
+  }
+  memset(fa_tab, 0, sizeof(fa_tab));
+  fa_next_id = 1;
+  fa_live = 0;
+  fa_guard_bad = fa_poison_bad = fa_type_mismatch = 0;
+  fa_trace_len = 0;
+  fa_events = 0;
+  fa_nsites = 0;
+  fa_attempts = 0;
+  fa_injected = 0;
+}
+
 /* id of a live block (0 if not live / unknown) - used for the ownership check of PDUs */
 static long fa_id_of(const void *p) {
   fa_blk_t *b = fa_slot((void *)p, 0);
